@@ -48,7 +48,9 @@ void* vs_realloc(void* p, size_t n);
 void vs_free(void* p);
 void vs_reset_arenas(void);
 void vs_fail_nth(int tid, int n); /* thread tid's n-th next allocation request is refused (0 = off) */
-void vs_shared_alloc_redirect(bool to_scratch); /* main context: allocate from a second, never frozen, shared arena */
+void vs_shared_alloc_redirect(bool to_scratch);
+void vs_refuse_while_frozen(bool on);  /* main context: every request made while the shared arena is frozen is refused */
+uint64_t vs_requests_while_frozen(void); /* running count of such requests */ /* main context: allocate from a second, never frozen, shared arena */
 /* frozen region = the part of the shared arena used so far */
 void vs_freeze_shared(bool mprotect_too);
 void vs_unfreeze(void);
